@@ -16,6 +16,7 @@ import (
 	"math"
 	"net"
 	"net/netip"
+	"sort"
 	"strconv"
 	"strings"
 	"sync"
@@ -662,6 +663,97 @@ func genSample(c *lib.Ctx) {
 	}
 }
 
+// genUniform is the counting form of "drawn uniformly" on the real code: for small (k, n) it
+// runs crypto.Sample on every vector of n-k random words taken from [L, 2L), L = lcm(2..n).
+// Such words pass every rejection test (L > 2^32 mod b for every bound b <= n) and are
+// equidistributed modulo every bound, so they enumerate ideal uniform draws exactly; every
+// k-subset of [0, n) must then come out equally often (C15_reservoir_uniform: L^(n-k) / C(n,k)
+// times each).
+func genUniform(c *lib.Ctx) {
+	c.Comment("rand.sample exhaustive uniformity")
+	for _, kn := range [][2]int{{1, 2}, {1, 3}, {2, 3}, {1, 4}, {2, 4}, {3, 4}, {2, 5}, {4, 5}, {3, 5}} {
+		k, n := kn[0], kn[1]
+		L := 1
+		for b := 2; b <= n; b++ {
+			g, x, y := 0, L, b
+			for y != 0 {
+				x, y = y, x%y
+			}
+			g = x
+			L = L / g * b
+		}
+		m := n - k
+		total := 1
+		for i := 0; i < m; i++ {
+			total *= L
+		}
+		if total > 4000 {
+			continue
+		}
+		tally := map[string]int{}
+		var ops []string
+		bad := ""
+		for v := 0; v < total; v++ {
+			var s []byte
+			x := v
+			for i := 0; i < m; i++ {
+				s = append(s, le32(uint32(L+x%L))...)
+				x /= L
+			}
+			s = append(s, le32(uint32(L))...) // spare accepted words
+			s = append(s, le32(uint32(L+1))...)
+			op := fmt.Sprintf("rand.sample %d %d 0 %s", k, n, lib.Hex(s))
+			ans := c.Do(op)
+			if len(ops) < 150 {
+				ops = append(ops, op)
+			}
+			f := strings.Fields(ans)
+			if f[0] != "ok" || len(f) < 3 {
+				bad = "a run did not succeed: " + ans
+				break
+			}
+			arr := make([]int, n)
+			for i := range arr {
+				arr[i] = i
+			}
+			okp := true
+			for _, p := range parsePicks(f[2]) {
+				if p[0] < 0 || p[0] >= n || p[1] < 0 || p[1] >= n {
+					okp = false
+					break
+				}
+				arr[p[0]] = arr[p[1]]
+			}
+			if !okp {
+				bad = "pick out of range: " + ans
+				break
+			}
+			sel := append([]int(nil), arr[:k]...)
+			sort.Ints(sel)
+			tally[fmt.Sprint(sel)]++
+		}
+		c.Count("uniform:k-n-pairs")
+		subsets := 1 // C(n, k)
+		for i := 0; i < k; i++ {
+			subsets = subsets * (n - i) / (i + 1)
+		}
+		if bad == "" {
+			if len(tally) != subsets {
+				bad = fmt.Sprintf("%d of the %d %d-subsets of [0,%d) are ever selected", len(tally), subsets, k, n)
+			}
+			for _, cnt := range tally {
+				if cnt*subsets != total && bad == "" {
+					bad = "the subsets are not selected equally often"
+				}
+			}
+		}
+		if bad != "" {
+			c.Fail("C15:sample:uniform", "over all ideal uniform draw vectors Sample(k, n) does not select every k-subset equally often",
+				ops, map[string]any{"k": k, "n": n, "draw_vectors": total, "subsets": subsets, "tally": tally, "why": bad})
+		}
+	}
+}
+
 func maxI64(a, b int64) int64 {
 	if a > b {
 		return a
@@ -920,6 +1012,7 @@ func genRounds(c *lib.Ctx) {
 func gen(c *lib.Ctx) {
 	genIntn(c)
 	genSample(c)
+	genUniform(c)
 	if err := world(); err != nil {
 		// retry once in isolation before giving up on the socket-level part
 		c.NotExecuted("mp.round: cannot open loopback sockets on " + pathIP + ": " + err.Error())
